@@ -38,6 +38,11 @@ def run(rep, tier):
     # the ratio forms multiply by length(self): the length of a line string is the sum over ALL its segments (table shared with C16)
     from . import c16
     c16.length_tables(rep, F, "R15.9", tier)
+    # interpolation in the Rhumb / Haversine spaces is point_at_ratio_between of those spaces: their laws, also across the antimeridian (C16 R16.5 / R16.7)
+    from ..report import Alias as _Alias
+    rep.rule("R15.10", "the metric spaces the interpolation entry points are generic over: Rhumb wrap of the longitude difference and the Haversine / Rhumb laws on witness pairs incl. antimeridian crossings in both directions (C16 R16.5 / R16.7)")
+    c16.rhumb_wrap(_Alias(rep, "R15.10"), F)
+    c16.metric_laws(_Alias(rep, "R15.10"), F, tier)
 
 
 def table(F, fn, loop_bound=1):
